@@ -10,7 +10,6 @@ import (
 	"io/fs"
 	"reflect"
 	"runtime"
-	"sort"
 	"sync"
 	"sync/atomic"
 	"time"
@@ -42,13 +41,17 @@ type scenario struct {
 	finished []atomic.Bool
 	gates    []chan struct{}
 	handled  sync.Mutex
-	values   []string
+	values   []any // what the configured handler received, as received
+	pvals    []any // the value task i panics with (nil for tasks that do not panic)
 	handler  bool
+	replaced bool         // a first handler was configured and then replaced before any submission
+	decoy    atomic.Int64 // calls received by the replaced handler
 	stop     bool
 }
 
-func newScenario(c *ev.Case, limit int, kinds []int, handler bool) *scenario {
-	s := &scenario{c: c, limit: limit, kinds: kinds, handler: handler}
+func newScenario(c *ev.Case, limit int, kinds []int, handler, replaced bool) *scenario {
+	s := &scenario{c: c, limit: limit, kinds: kinds, handler: handler, replaced: handler && replaced}
+	s.pvals = makePanicValues(kinds)
 	s.N = limit
 	if limit < 1 {
 		s.N = 3
@@ -64,10 +67,14 @@ func newScenario(c *ev.Case, limit int, kinds []int, handler bool) *scenario {
 	}
 	s.c.Guard("NewLimiter", func() {
 		s.l = goz.NewLimiter(limit)
+		if s.replaced {
+			// the configured handler is the one set last
+			s.l.SetPanicHandler(func(any) { s.decoy.Add(1) })
+		}
 		if handler {
 			s.l.SetPanicHandler(func(v any) {
 				s.handled.Lock()
-				s.values = append(s.values, fmt.Sprint(v))
+				s.values = append(s.values, v)
 				s.handled.Unlock()
 			})
 		}
@@ -78,6 +85,57 @@ func newScenario(c *ev.Case, limit int, kinds []int, handler bool) *scenario {
 type panicVal struct{ id int }
 
 func (p panicVal) String() string { return fmt.Sprintf("task-%d", p.id) }
+
+const panicValueTypes = 6
+
+var panicValueNames = [panicValueTypes]string{"struct", "string", "error", "nil_pointer", "slice", "pointer"}
+
+// makePanicValues draws up, per panicking task, the value it panics with:
+// values of several dynamic types, comparable and not, one of them hostile to
+// formatting. The handler must receive these very values.
+func makePanicValues(kinds []int) []any {
+	v := make([]any, len(kinds))
+	for i, k := range kinds {
+		if k != kindPanic {
+			continue
+		}
+		switch i % panicValueTypes {
+		case 0:
+			v[i] = panicVal{i}
+		case 1:
+			v[i] = fmt.Sprintf("task-%d", i)
+		case 2:
+			v[i] = fmt.Errorf("task-%d", i)
+		case 3:
+			// an error value whose Error method itself panics (nil receiver)
+			var perr *fs.PathError
+			v[i] = perr
+		case 4:
+			v[i] = []int{i, -i} // not comparable
+		default:
+			v[i] = &panicVal{i}
+		}
+	}
+	return v
+}
+
+// sameValue: b is the value a (same dynamic type; equal, for pointers the same pointer).
+func sameValue(a, b any) bool {
+	ta, tb := reflect.TypeOf(a), reflect.TypeOf(b)
+	if ta != tb {
+		return false
+	}
+	if ta == nil {
+		return true
+	}
+	if ta.Comparable() {
+		return a == b
+	}
+	return reflect.DeepEqual(a, b)
+}
+
+// render shows a panic value with its dynamic type (fmt survives the hostile one).
+func render(v any) string { return fmt.Sprintf("%T(%v)", v, v) }
 
 // task builds the monitored function for task i.
 func (s *scenario) task(i int) func() {
@@ -102,18 +160,7 @@ func (s *scenario) task(i int) func() {
 		case kindGoexit:
 			runtime.Goexit()
 		case kindPanic:
-			switch i % 4 {
-			case 0:
-				panic(panicVal{i})
-			case 1:
-				panic(fmt.Sprintf("task-%d", i))
-			case 2:
-				panic(fmt.Errorf("task-%d", i))
-			default:
-				// an error value whose Error method itself panics (nil receiver)
-				var perr *fs.PathError
-				panic(perr)
-			}
+			panic(s.pvals[i])
 		}
 	}
 }
@@ -125,14 +172,21 @@ func (s *scenario) task(i int) func() {
 var stuckWaits atomic.Int64
 
 func waitFor(cond func() bool) bool {
-	deadline := time.Now().Add(15 * time.Second)
+	if waitUpTo(15*time.Second, cond) {
+		return true
+	}
+	stuckWaits.Add(1)
+	return false
+}
+
+func waitUpTo(d time.Duration, cond func() bool) bool {
+	deadline := time.Now().Add(d)
 	for i := 0; ; i++ {
 		if cond() {
 			return true
 		}
 		if i%64 == 63 {
 			if time.Now().After(deadline) {
-				stuckWaits.Add(1)
 				return false
 			}
 			time.Sleep(50 * time.Microsecond)
@@ -189,7 +243,11 @@ func (s *scenario) describe() string {
 	for i, v := range s.kinds {
 		k[i] = "rbpg"[v]
 	}
-	return fmt.Sprintf("limit=%d(effective %d) handler=%v tasks=%s", s.limit, s.N, s.handler, k)
+	h := fmt.Sprint(s.handler)
+	if s.replaced {
+		h = "second"
+	}
+	return fmt.Sprintf("limit=%d(effective %d) handler=%s tasks=%s", s.limit, s.N, h, k)
 }
 
 // run executes the scenario: submitters submit all tasks, the releaser lets
@@ -259,6 +317,13 @@ func (s *scenario) run(submitters int, fill bool) {
 			}
 			if k, _ := insideBlocked(); k == want {
 				c.Add("bound_tight_observations", 1)
+				if s.limit < 1 && want == 3 && remaining > 3 {
+					// the default bound, seen tight while further gated functions are waiting for a slot
+					c.Add("default_limit_tight", 1)
+				}
+				if s.N > 8 && want == int64(s.N) {
+					c.Add("big_limit_tight", 1)
+				}
 			}
 		} else {
 			if !waitFor(func() bool { k, _ := insideBlocked(); return k >= 1 }) {
@@ -328,26 +393,56 @@ func (s *scenario) run(submitters int, fill bool) {
 		return
 	}
 	if s.handler {
-		var want []string
+		var want []any
 		for i, k := range s.kinds {
 			if k == kindPanic {
-				if i%4 == 3 {
-					want = append(want, "<nil>") // fmt's rendering of a nil *fs.PathError
-				} else {
-					want = append(want, fmt.Sprintf("task-%d", i))
-				}
+				want = append(want, s.pvals[i])
 			}
 		}
+		// the statement does not order the handler call against Wait(): give a
+		// handler that is called after the slot was returned the time to be called
+		waitUpTo(4*time.Second, func() bool {
+			s.handled.Lock()
+			defer s.handled.Unlock()
+			return len(s.values) >= len(want)
+		})
 		s.handled.Lock()
-		got := append([]string(nil), s.values...)
+		got := append([]any(nil), s.values...)
 		s.handled.Unlock()
-		sort.Strings(got)
-		sort.Strings(want)
-		if fmt.Sprint(got) != fmt.Sprint(want) {
-			c.Failf("handler-values", "panic handler received %v, expected exactly %v", got, want)
+		used := make([]bool, len(got))
+		for _, w := range want {
+			found := false
+			for j, g := range got {
+				if !used[j] && sameValue(w, g) {
+					used[j], found = true, true
+					break
+				}
+			}
+			if !found {
+				r := make([]string, len(got))
+				for j, g := range got {
+					r[j] = render(g)
+				}
+				c.Failf("handler-values", "a function panicked with %s, but that value did not reach the configured handler; the handler received %v (%s)", render(w), r, s.describe())
+				return
+			}
+		}
+		for j, g := range got {
+			if !used[j] {
+				c.Failf("handler-values", "the panic handler received %s, which no submitted function panicked with (%d calls for %d panicking functions; %s)", render(g), len(got), len(want), s.describe())
+				return
+			}
+		}
+		if d := s.decoy.Load(); d != 0 {
+			c.Failf("handler-values", "a handler that had been replaced by SetPanicHandler before any submission was called %d times (%s)", d, s.describe())
 			return
 		}
 		c.Add("panics_handled", int64(len(want)))
+		for i, k := range s.kinds {
+			if k == kindPanic {
+				c.Add("panic_values_"+panicValueNames[i%panicValueTypes], 1)
+			}
+		}
 	}
 	// slots must all be back: N fresh gated tasks must all get inside
 	if rng.Chance(1, 2) {
@@ -447,29 +542,86 @@ func scenarioCase(c *ev.Case) {
 	default:
 		kinds = genKinds(rng, n, 30, 10)
 	}
-	handler := rng.Chance(3, 4)
-	s := newScenario(c, limit, kinds, handler)
-	s.run(rng.Range(1, 3), rng.Chance(2, 3))
-	if c.Failed() || s.stop {
+	scenarioBody(c, limit, kinds, rng.Chance(2, 3))
+}
+
+// bigLimitCase: limits above 8, up to a few hundred (around 2^7 and 2^8 too),
+// with more gated functions than slots, so that the bound becomes tight at n.
+func bigLimitCase(c *ev.Case) {
+	rng := c.Rng
+	if stuckWaits.Load() >= 3 {
+		c.Add("cases_skipped_after_stuck_waits", 1)
 		return
+	}
+	limit := rng.Pick(9, 10, 12, 16, 17, 31, 32, 33, 64, 65, 100, 127, 128, 129, 255, 256, 257, 300)
+	n := limit + rng.Range(1, 12)
+	kinds := genKinds(rng, n, 100-rng.Pick(0, 10, 25), rng.Pick(0, 5, 10))
+	// at least limit+1 gated functions: the (limit+1)-th can only get in early if the bound is broken
+	nb := 0
+	for _, k := range kinds {
+		if k == kindBlock {
+			nb++
+		}
+	}
+	for i := 0; nb <= limit && i < n; i++ {
+		if kinds[i] != kindBlock {
+			kinds[i] = kindBlock
+			nb++
+		}
+	}
+	if scenarioBody(c, limit, kinds, true) {
+		c.Add("big_limit_scenarios", 1)
+	}
+}
+
+func scenarioBody(c *ev.Case, limit int, kinds []int, fill bool) bool {
+	rng := c.Rng
+	handler := rng.Chance(3, 4)
+	replaced := rng.Chance(1, 3)
+	submitters := rng.Range(1, 3)
+	s := newScenario(c, limit, kinds, handler, replaced)
+	s.run(submitters, fill)
+	if c.Failed() || s.stop {
+		return false
 	}
 	c.Add("scenarios", 1)
 	if limit < 1 {
 		c.Add("scenarios_default_limit", 1)
 	}
-	np := 0
+	if s.replaced {
+		c.Add("scenarios_handler_replaced", 1)
+	}
+	if submitters > 1 {
+		c.Add("scenarios_concurrent_submitters", 1)
+	}
+	np, nb, ng := 0, 0, 0
 	for _, k := range kinds {
-		if k == kindPanic {
+		switch k {
+		case kindPanic:
 			np++
+		case kindBlock:
+			nb++
+		case kindGoexit:
+			ng++
 		}
 	}
 	if np > 0 && !handler {
 		c.Add("scenarios_panic_without_handler", 1)
 	}
+	if nb > s.N {
+		// more gated functions than slots: some Go() call had to wait for a slot
+		c.Add("scenarios_more_gated_than_slots", 1)
+	}
+	c.Add("goexit_functions", int64(ng))
 	c.Distinct(ev.HashString(s.describe()))
 	if c.WantSample() {
-		c.Sample(fmt.Sprintf("%s: max inside %d, %d panics", s.describe(), s.maxSeen.Load(), np))
+		d := s.describe()
+		if len(d) > 120 {
+			d = d[:120] + "..."
+		}
+		c.Sample(fmt.Sprintf("%s: max inside %d, %d panics", d, s.maxSeen.Load(), np))
 	}
+	return true
 }
 
 // leakCase: p panicking tasks one after the other, then N gated tasks must all get in.
@@ -485,7 +637,7 @@ func leakCase(c *ev.Case) {
 	for i := range kinds {
 		kinds[i] = kindPanic
 	}
-	s := newScenario(c, limit, kinds, rng.Bool())
+	s := newScenario(c, limit, kinds, rng.Bool(), rng.Chance(1, 3))
 	s.run(1, false)
 	if c.Failed() || s.stop {
 		return
@@ -568,7 +720,7 @@ func reuseCase(c *ev.Case) {
 		for j := n; j < n+E; j++ {
 			kinds[j] = kindBlock
 		}
-		s := &scenario{c: c, limit: limit, N: N, kinds: kinds, handler: handler, l: l}
+		s := &scenario{c: c, limit: limit, N: N, kinds: kinds, handler: handler, l: l, pvals: makePanicValues(kinds)}
 		s.exec = make([]atomic.Int32, n+E)
 		s.entered = make([]atomic.Bool, n+E)
 		s.goRet = make([]atomic.Bool, n+E)
@@ -774,6 +926,8 @@ func reuseCase(c *ev.Case) {
 		}
 	}
 	if handler {
+		// as in the scenario engine: the handler call is not ordered against Wait()
+		waitUpTo(4*time.Second, func() bool { hmu.Lock(); defer hmu.Unlock(); return handled >= wantHandled })
 		hmu.Lock()
 		h := handled
 		hmu.Unlock()
@@ -786,6 +940,129 @@ func reuseCase(c *ev.Case) {
 	c.Distinct(ev.HashString(desc))
 	if c.WantSample() {
 		c.Sample("reuse: " + desc)
+	}
+}
+
+// holdCase: functions that run for a while. An untimed Wait() is started while
+// every gated function of the batch is inside; the functions are then released
+// one at a time, each after a hold of its own (mostly a few hundred
+// microseconds to a few milliseconds, in some cases the better part of a
+// second). The durations only shape the workload: the verdict is the
+// order of events - Wait() has returned although a function's gate has not been
+// opened yet, so that function cannot have finished.
+func holdCase(c *ev.Case) {
+	rng := c.Rng
+	if stuckWaits.Load() >= 3 {
+		c.Add("cases_skipped_after_stuck_waits", 1)
+		return
+	}
+	limit := rng.Pick(1, 2, 3, 4, 6, 0)
+	N := limit
+	if N < 1 {
+		N = 3
+	}
+	nb := rng.Range(1, N) // never more gated functions than slots: every Go() returns
+	nother := rng.Intn(3)
+	kinds := make([]int, 0, nb+nother)
+	for i := 0; i < nother; i++ {
+		kinds = append(kinds, rng.Pick(kindReturn, kindPanic, kindGoexit))
+	}
+	for i := 0; i < nb; i++ {
+		kinds = append(kinds, kindBlock)
+	}
+	n := len(kinds)
+	long := rng.Chance(1, 12)
+	holds := make([]time.Duration, nb)
+	for i := range holds {
+		holds[i] = time.Duration(rng.Range(100, 3000)) * time.Microsecond
+	}
+	if long {
+		holds[rng.Intn(nb)] = time.Duration(rng.Range(600, 800)) * time.Millisecond
+	}
+	s := newScenario(c, limit, kinds, rng.Chance(3, 4), false)
+	if s.l == nil {
+		return
+	}
+	c.Logf("hold scenario %s holds=%v", s.describe(), holds)
+	released := make([]bool, n)
+	if !c.Guard("Go", func() {
+		for i := 0; i < n; i++ {
+			s.l.Go(s.task(i))
+			s.goRet[i].Store(true)
+		}
+	}) {
+		return
+	}
+	if !waitFor(func() bool {
+		for i := nother; i < n; i++ {
+			if !s.entered[i].Load() {
+				return false
+			}
+		}
+		return true
+	}) {
+		s.stuck("hold: waiting for the gated functions to get in", int64(n), int64(nb))
+		s.drain(released)
+		return
+	}
+	var waitReturned atomic.Bool
+	waitRet := make(chan any, 1)
+	go func() {
+		defer func() { waitRet <- recover() }()
+		s.l.Wait()
+		waitReturned.Store(true)
+	}()
+	order := rng.Perm(nb)
+	for k, o := range order {
+		i := nother + o
+		time.Sleep(holds[k])
+		if waitReturned.Load() {
+			c.Failf("wait-early", "Wait() (no timeout) returned while function %d was still running: its gate had not been opened yet, %d of %d gated functions had been released (%s)", i, k, nb, s.describe())
+			s.drain(released)
+			return
+		}
+		c.Logf("release function %d after holding it for %v", i, holds[k])
+		released[i] = true
+		close(s.gates[i])
+		if k < nb-1 && !waitFor(func() bool { return s.finished[i].Load() }) {
+			c.Run().Inconclusive(fmt.Sprintf("%s[%d] hold: a released function did not finish", c.Engine, c.Index))
+			s.drain(released)
+			return
+		}
+	}
+	var waitPanic any
+	if !waitFor(func() bool {
+		select {
+		case waitPanic = <-waitRet:
+			return true
+		default:
+			return false
+		}
+	}) {
+		s.stuck("hold: Wait() does not return although every gated function was released", int64(n), 0)
+		return
+	}
+	if waitPanic != nil {
+		c.Failf("panic/Wait", "Limiter.Wait panicked: %v", waitPanic)
+		return
+	}
+	for i := 0; i < n; i++ {
+		if !s.finished[i].Load() {
+			c.Failf("wait-early", "Wait() returned while function %d had not finished (%s)", i, s.describe())
+			return
+		}
+		if e := s.exec[i].Load(); e != 1 {
+			c.Failf("exec-count", "function %d was executed %d times (%s)", i, e, s.describe())
+			return
+		}
+	}
+	c.Add("hold_scenarios", 1)
+	if long {
+		c.Add("hold_scenarios_long", 1)
+	}
+	c.Distinct(ev.HashString(fmt.Sprintf("hold %s %v", s.describe(), holds)))
+	if c.WantSample() {
+		c.Sample(fmt.Sprintf("hold: %s, Wait() pending while the gated functions are released after %v", s.describe(), holds))
 	}
 }
 
@@ -883,11 +1160,14 @@ func main() {
 	r.Rule("one case = (limit, task kinds return/block/panic, handler on/off, submitter count, release order) drawn from the seed; tasks are gated by channels; distinct = distinct scenario descriptions")
 	r.Assume("the in-flight counter is incremented as the first and decremented as the last action of each submitted function; an entry that sees more than n inside is the violation witness")
 	r.Assume("Wait() is called after all Go() calls have returned")
+	r.Assume("the configured handler is the one passed to the last SetPanicHandler call made before the first submission; the value it receives is the panic value itself (same dynamic type, equal; the same pointer for pointers), at some time after the function panicked - not necessarily before Wait() returns")
 	r.Assume("the statement has no data-race clause: the -race builds are used for their different timing and for runtime fatals only; race reports are counted (race_reports_not_judged), not judged (a timed Wait that expires leaves a goroutine parked in WaitGroup.Wait, which the detector reports when the limiter is reused)")
 	r.Assume("a wait that does not complete within 15 s is a verdict only when the token channel is confirmed full (reflection) while fewer than n functions are inside; otherwise inconclusive")
 	r.CasesProc("scenario", r.N(12000, 300000), ev.Opt{Procs: 8, Workers: 4, AlwaysLog: true, MaxCaseSeconds: 120}, scenarioCase)
 	r.CasesProc("leak", r.N(2000, 50000), ev.Opt{Procs: 4, Workers: 4, AlwaysLog: true, MaxCaseSeconds: 120}, leakCase)
 	r.CasesProc("two-limiters", r.N(1500, 40000), ev.Opt{Procs: 6, Workers: 4, AlwaysLog: true, MaxCaseSeconds: 120}, twoLimitersCase)
+	r.CasesProc("big-limit", r.N(160, 4000), ev.Opt{Procs: 8, Workers: 2, AlwaysLog: true, MaxCaseSeconds: 120}, bigLimitCase)
+	r.CasesProc("hold", r.N(480, 8000), ev.Opt{Procs: 8, Workers: 8, AlwaysLog: true, MaxCaseSeconds: 120}, holdCase)
 	r.CasesProc("reuse", r.N(4000, 100000), ev.Opt{Procs: 12, Workers: 1, AlwaysLog: true, MaxCaseSeconds: 120}, reuseCase)
 	r.CasesProc("reuse/race", r.N(800, 20000), ev.Opt{Bin: "race", Procs: 8, Workers: 1, AlwaysLog: true, MaxCaseSeconds: 120, IgnoreRaces: true}, reuseCase)
 	r.CasesProc("scenario/race", r.N(3000, 60000), ev.Opt{Bin: "race", Procs: 8, Workers: 2, AlwaysLog: true, MaxCaseSeconds: 120, IgnoreRaces: true}, scenarioCase)
@@ -900,5 +1180,21 @@ func main() {
 	r.Require("two_limiter_scenarios", 1000)
 	r.Require("timed_waits_expired", 500)
 	r.Require("reuse_drains_without_wait", 300)
+	r.Require("reuse_untimed_waits", 1000)
+	r.Require("reuse_surplus_submissions", 300)
+	r.Require("leak_scenarios", 500)
+	r.Require("scenarios_panic_without_handler", 300)
+	r.Require("scenarios_handler_replaced", 500)
+	r.Require("scenarios_concurrent_submitters", 1000)
+	r.Require("scenarios_more_gated_than_slots", 1000)
+	r.Require("goexit_functions", 200)
+	r.Require("default_limit_tight", 50)
+	for _, t := range panicValueNames {
+		r.Require("panic_values_"+t, 200)
+	}
+	r.Require("big_limit_scenarios", 100)
+	r.Require("big_limit_tight", 100)
+	r.Require("hold_scenarios", 300)
+	r.Require("hold_scenarios_long", 20)
 	r.Finish()
 }
